@@ -33,6 +33,19 @@ func rootWith(ncpu int, leaves [][]byte) []byte {
 	return merkle.GetMerkleRoot(cp(leaves))
 }
 
+// rootWithStep also reports the chunk size the code really used (hook H1b; 0 = sequential path)
+func rootWithStep(ncpu int, leaves [][]byte) ([]byte, int) {
+	ncpuMu.Lock()
+	defer ncpuMu.Unlock()
+	merkle.VerifSetNCPU(ncpu)
+	defer merkle.VerifSetNCPU(0)
+	merkle.VerifLastStep()
+	r := merkle.GetMerkleRoot(cp(leaves))
+	return r, merkle.VerifLastStep()
+}
+
+func pow2(x int) bool { return x > 0 && x&(x-1) == 0 }
+
 func cp(l [][]byte) [][]byte {
 	out := make([][]byte, len(l))
 	copy(out, l)
@@ -134,6 +147,8 @@ func (d *drv) Apply(s core.Step) (any, any, error) {
 		return d.multi(s)
 	case "Sweep":
 		return d.sweep(s)
+	case "Regime":
+		return d.regime(s)
 	}
 	return nil, nil, fmt.Errorf("unknown op %q", s.Op())
 }
@@ -149,7 +164,18 @@ func (d *drv) root(s core.Step) (any, any, error) {
 	ret["seq"] = same(exp, rootWith(1, leaves), "seq")
 	var par []any
 	for _, w := range s.Ints("ws") {
-		par = append(par, same(exp, rootWith(w, leaves), fmt.Sprintf("par(w=%d,step=%d)", w, stepOf(n, w))))
+		r, st := rootWithStep(w, leaves)
+		v := same(exp, r, fmt.Sprintf("par(w=%d,step=%d)", w, st))
+		if st != 0 && !pow2(st) {
+			// the specification's assumption on the chunk size (Merkle.tla, IsPow2) does not hold
+			// for the code: TLC's equality result does not carry over
+			if v == "T" {
+				v = fmt.Sprintf("X:par(w=%d,step=%d):root equal but the chunk size is not a power of two", w, st)
+			} else {
+				v = fmt.Sprintf("X:par(w=%d,step=%d):root differs; the chunk size is not a power of two", w, st)
+			}
+		}
+		par = append(par, v)
 	}
 	ret["par"] = par
 	r1, _, _ := merkle.Computation(cp(leaves), 1, 0)
@@ -256,6 +282,42 @@ func (d *drv) sweep(s core.Step) (any, any, error) {
 			if p := rootWith(w, leaves); !bytes.Equal(seq, p) {
 				return fmt.Sprintf("X:par!=seq n=%d w=%d step=%d", n, w, st), nil, nil
 			}
+		}
+	}
+	return "same", nil, nil
+}
+
+// regime: one (leaf count, worker count) pair at a boundary of the chunk-size regimes (TLC has
+// shown the two root algorithms equal for exactly this pair): the chunk size the code uses is a
+// power of two, the parallel root equals the sequential and the constant-space root, and branches
+// at both ends, the middle and the start of the last chunk verify against the parallel root (the
+// value a block header carries).
+func (d *drv) regime(s core.Step) (any, any, error) {
+	n, w := s.Int("n"), s.Int("w")
+	leaves := d.leavesN(n)
+	seq := rootWith(1, leaves)
+	par, st := rootWithStep(w, leaves)
+	if !bytes.Equal(seq, par) {
+		if st != 0 && !pow2(st) {
+			return fmt.Sprintf("X:par!=seq (chunk size is not a power of two) n=%d w=%d step=%d", n, w, st), nil, nil
+		}
+		return fmt.Sprintf("X:par!=seq n=%d w=%d step=%d", n, w, st), nil, nil
+	}
+	if st != 0 && !pow2(st) {
+		// the specification's assumption (Merkle.tla, IsPow2) does not hold for the code
+		return fmt.Sprintf("X:chunk size is not a power of two: n=%d w=%d step=%d", n, w, st), nil, nil
+	}
+	if c, _, _ := merkle.Computation(cp(leaves), 1, 0); !bytes.Equal(c, seq) {
+		return fmt.Sprintf("X:comp!=seq n=%d", n), nil, nil
+	}
+	pos := []int{0, n - 1, n / 2}
+	if st > 0 {
+		pos = append(pos, ((n-1)/st)*st)
+	}
+	for _, p := range pos {
+		br := merkle.GetMerkleBranch(cp(leaves), uint32(p))
+		if !bytes.Equal(merkle.GetMerkleRootFromBranch(br, leaves[p], uint32(p)), par) {
+			return fmt.Sprintf("X:branch does not verify n=%d pos=%d", n, p), nil, nil
 		}
 	}
 	return "same", nil, nil
@@ -487,6 +549,10 @@ func (d *drv) NonTrivial(env *core.Env, b *core.Behaviour) bool {
 			if s.Int("to") > 80 {
 				return true
 			}
+		case "Regime":
+			if s.Int("n") > 80 && s.Int("w") > 1 {
+				return true
+			}
 		}
 	}
 	return false
@@ -543,7 +609,14 @@ func (d *drv) Signature(b *core.Behaviour, idx int, field string, exp, obs any) 
 	}
 	switch s.Op() {
 	case "Root":
-		return fmt.Sprintf("Root|n%s80|fails=%s", map[bool]string{true: ">", false: "<="}[s.Int("n") > 80], fails(obs))
+		cl := ""
+		if strings.Contains(core.J(obs), "not a power of two") {
+			cl = "|chunk size is not a power of two"
+			if strings.Contains(core.J(obs), "root equal but") {
+				cl += " (roots equal)"
+			}
+		}
+		return fmt.Sprintf("Root|n%s80|fails=%s%s", map[bool]string{true: ">", false: "<="}[s.Int("n") > 80], fails(obs), cl)
 	case "Branch":
 		return fmt.Sprintf("Branch|oddlevel=%v|fails=%s", oddOnPath(s.Int("n"), s.Int("pos")), fails(obs))
 	case "Pair":
@@ -554,6 +627,14 @@ func (d *drv) Signature(b *core.Behaviour, idx int, field string, exp, obs any) 
 			ch = ">=2"
 		}
 		return fmt.Sprintf("Multi|chains%s|fails=%s", ch, fails(obs))
+	case "Regime":
+		o, _ := obs.(string)
+		for _, c := range []string{"X:par!=seq (chunk size is not a power of two)", "X:chunk size is not a power of two", "X:par!=seq", "X:comp!=seq", "X:branch does not verify"} {
+			if strings.HasPrefix(o, c) {
+				return "Regime|" + c[2:]
+			}
+		}
+		return "Regime|" + clipS(o, 40)
 	case "Sweep":
 		o, _ := obs.(string)
 		var n, w, st int
